@@ -23,14 +23,12 @@
   hostrange_join (hostlist.c)             Hostlist.hostrangeJoin                hostrange_join     C16
   cbuf_shrink (cbuf.c)                    (no-op premise of Cbuf.dropper)       cbuf_shrink        C13 C05
   cbuf_dropper (cbuf.c)                   Cbuf.dropper                          cbuf_dropper       C13 C05
+  cbuf_find_unread_line (cbuf.c)          Cbuf.findUnreadLine                   cbuf_find_unread_line  C13 C05 C06
   _thd_connect_timeout (dsh.c)            Dsh.Timed.killed, connecting part     thd_connect_timeout  C07
   _thd_command_timeout (dsh.c)            Dsh.Timed.killed, reading part        thd_command_timeout, wdog_decision  C07
   _dir_permission_error (mod.c)           Mod.dirOk                             dir_permission_error  C17
   find_host (rcmd.c)                      predicate of Opt.Rcmd.lookup          find_host, registry_lookup  C09
   find_rcmd_module (rcmd.c)               membership in Cfg.loaded              find_rcmd_module   C09
-
-  Translated but NOT yet bridged (the generated definitions exist and are re-generated; no theorem):
-  cbuf_find_unread_line (cbuf.c) vs Cbuf.findUnreadLine.
 
   Not proved here: anything about functions outside the translator's subset (tools/c2lean.md lists the
   ones tried); that clang's AST, the translator and the libc models of C2Lean/Prelude.lean are right
@@ -115,6 +113,12 @@ theorem cbuf_shrink (c : Cbuf) (h : InC c) : Gen.Fn.Cbuf.cbuf_shrink (toC c) = s
 theorem cbuf_dropper (c : Cbuf) (len : Nat) (h : InC c) (hl : len ≤ c.used) :
     Gen.Fn.Cbuf.cbuf_dropper (toC c) (len : Int) = some ((len : Int), toC (dropper c len)) :=
   cbuf_dropper_bridge c len h hl
+
+theorem cbuf_find_unread_line (c : Cbuf) (hi : Inv c) (h : InC c) (fuel : Nat) (chars lines : Int)
+    (hc : IsInt chars) (hl : IsInt lines) (hf : c.size + 2 ≤ fuel) :
+    Gen.Fn.Cbuf.cbuf_find_unread_line fuel (toC c) chars lines =
+      some (((findUnreadLine c chars lines).1 : Int), ((findUnreadLine c chars lines).2 : Int)) :=
+  cbuf_find_unread_line_bridge c hi h fuel chars lines hc hl hf
 
 end cbuf
 
